@@ -1,4 +1,5 @@
 import CTV.Gen.Policy
+import CTV.Gen.Temporal
 /-!
 # Model of multi-log submission (C17)
 
@@ -255,9 +256,7 @@ deriving Repr, DecidableEq
 
 /-- `TemporallyCompatible`, one log -/
 def temporalOk (notAfter : Int) (li : LogInfo) : Bool :=
-  match li.interval with
-  | none => true
-  | some (a, b) => Gen.Policy.temporallyCompatible notAfter a b
+  Gen.temporallyCompatible li.interval notAfter
 
 /-- `RootCompatible`, one log, for a CA root -/
 def rootOk (root : Nat) (li : LogInfo) : Bool :=
